@@ -1355,6 +1355,11 @@ def m_scalar_to_string(ex, n, a, f):
     return StringV(out)
 
 
+@model(r"^<std::borrow::Cow<'_, str> as (alloc|std)::string::SpecToString>::spec_to_string$", r"^<std::borrow::Cow<'_, str> as std::string::ToString>::to_string$")
+def m_cow_to_string(ex, n, a, f):
+    return StringV(list(_cow_chars(ex, a[0])))
+
+
 @model(r'^<.* as (alloc|std)::string::SpecToString>::spec_to_string$')
 def m_generic_to_string(ex, n, a, f):
     """ToString through the type's real Display impl (the body builds a Formatter over a String by raw aggregates)"""
